@@ -12,6 +12,7 @@ node kinds
   {"t":"mapnext","kids":[..]}               -> map + next() until all;  ["mapnext",[vals],nbatches]
   {"t":"mapcancel","kids":[..],"after":b}   -> map, b x next(), cancel; ["mapcancel",[[i,val]..]]
   {"t":"subcancel","kid":K,"wait":bool}     -> submit, cancel, (await -> RuntimeError); ["subcancel", "raised"|"skipped"]
+  {"t":"forget","kids":[..]}                -> submit all, return without awaiting (completion cancels them); ["forget", n]
 """
 from __future__ import annotations
 
@@ -89,6 +90,13 @@ async def run_node(spec):
         rt.cancel(fut)
         EXEC_LOG.append(('cancelled:' + spec['id'], rt._id, CLOCK[0], ()))
         return ['mapcancel', sorted([i, v] for i, v in seen.items())]
+    if t == 'forget':
+        # submit children and return WITHOUT awaiting them: completing the
+        # task cancels its unfinished children
+        for k in spec['kids']:
+            rt.submit(run_node, k)
+        EXEC_LOG.append(('cancelled:' + spec['id'], rt._id, CLOCK[0], ()))
+        return ['forget', len(spec['kids'])]
     if t == 'subcancel':
         fut = rt.submit(run_node, spec['kid'])
         rt.cancel(fut)
@@ -113,7 +121,7 @@ def leaves(spec, under_cancel=False, acc=None):
     if t in ('seq', 'map', 'mapnext'):
         for k in spec['kids']:
             leaves(k, under_cancel, acc)
-    elif t == 'mapcancel':
+    elif t in ('mapcancel', 'forget'):
         for k in spec['kids']:
             leaves(k, True, acc)
     elif t == 'subcancel':
@@ -149,6 +157,8 @@ def expected(spec):
         return ['mapcancel', [expected(k) for k in spec['kids']]]
     if t == 'subcancel':
         return ['subcancel', 'raised' if spec['wait'] else 'skipped']
+    if t == 'forget':
+        return ['forget', len(spec['kids'])]
     return None
 
 
@@ -187,6 +197,6 @@ def value_matches(exp, got):
             if d:
                 return f'mapcancel[{i}]: {d}'
         return None
-    if k == 'subcancel':
+    if k in ('subcancel', 'forget'):
         return None if got == exp else f'{got} vs {exp}'
     return f'unknown kind {k}'
